@@ -278,7 +278,7 @@ class Engine:
 
     def solver(self, timeout_ms=None):
         s = z3.Solver()
-        s.set('timeout', timeout_ms or self.timeout_ms)
+        s.set('rlimit', 2000000)
         for f in self.facts:
             s.add(f)
         for c in self.pc:
@@ -286,6 +286,7 @@ class Engine:
         return s
 
     def sat(self, *extra, timeout_ms=5000):
+        """z3.sat / z3.unsat / z3.unknown for facts + pc + extra (in-process, then external portfolio)"""
         s = self.solver(timeout_ms)
         for e in extra:
             s.add(e)
@@ -293,12 +294,31 @@ class Engine:
         r = s.check()
         self.solver_time += time.time() - t0
         self.n_queries += 1
+        if r == z3.unknown:
+            from . import solve
+            st, _, dt, _ = solve.decide(list(self.facts) + list(self.pc) + list(extra), limit_s=4)
+            self.solver_time += dt
+            if os.environ.get('VERIF_DEBUG'):
+                print(f'   [sat] external feasibility check: {st} {dt:.1f}s pc={len(self.pc)} extra={[str(z3.simplify(e))[:300] for e in extra]}', flush=True)
+            if st == 'proved':
+                return z3.unsat
+            if st == 'refuted':
+                return z3.sat
         return r
 
+    def fresh_fun(self, name, ret='int'):
+        """fresh uninterpreted function of the indices of all active symbolic loops (so that values created
+        inside a loop body stay functions of the loop index under later substitution)"""
+        idxs = [l.idx for l in self.loops]
+        rs = z3.IntSort() if ret == 'int' else V
+        f = z3.Function(fresh_name(name), *([z3.IntSort()] * len(idxs)), z3.IntSort(), rs)
+        return lambda t: f(*idxs, t)
+
     def prove(self, goal, pc=None, facts=None, timeout_ms=None):
-        """returns ('proved'|'refuted'|'unknown', model_or_None, seconds)"""
+        """in-process proof attempt for engine-internal side conditions (resource-limited).
+        returns ('proved'|'refuted'|'unknown', model_or_None, seconds)"""
         s = z3.Solver()
-        s.set('timeout', timeout_ms or self.timeout_ms)
+        s.set('rlimit', 3000000)
         for f in (self.facts if facts is None else facts):
             s.add(f)
         for c in (self.pc if pc is None else pc):
@@ -316,6 +336,11 @@ class Engine:
         if r == z3.sat:
             return 'refuted', s.model(), dt
         return 'unknown', None, dt
+
+    def assertions_for(self, goal, pc=None):
+        if isinstance(goal, bool):
+            goal = z3.BoolVal(goal)
+        return list(self.facts) + list(self.pc if pc is None else pc) + [z3.Not(goal)]
 
     # ------------------------------------------------------------------ reification
     def strconst(self, s):
@@ -375,6 +400,8 @@ class Engine:
             for g, x in reversed(v.cases):
                 t = self.toV(x)
                 out = t if out is None else z3.If(g, t, out)
+            if out is None:
+                raise Undecided('empty piecewise value')
             return out
         if isinstance(v, RangeV):
             return ufunc('range', 2)(self.toV(v.start), self.toV(v.stop))
@@ -552,30 +579,36 @@ class Engine:
         return out
 
     # ------------------------------------------------------------------ substitution
-    def subst(self, v, pairs):
+    def subst(self, v, pairs, memo=None):
         """substitute z3 constants in an engine value; pairs: list of (const, expr)"""
         if not pairs:
             return v
+        if memo is None:
+            memo = {}
+        if id(v) in memo:
+            return memo[id(v)]
         if isinstance(v, SV):
             r = SV(z3.substitute(v.z, *pairs), v.kind, tag=v.tag)
+            memo[id(v)] = r
             if v.app is not None:
-                r.app = (v.app[0], [self.subst(a, pairs) for a in v.app[1]], v.app[2])
+                r.app = (v.app[0], [self.subst(a, pairs, memo) for a in v.app[1]], v.app[2])
             if v.ratio is not None:
                 r.ratio = tuple(z3.substitute(x, *pairs) for x in v.ratio)
             return r
         if isinstance(v, Obj):
             if z3.is_const(v.term) and v.app is None:
                 return v
-            o = Obj(z3.substitute(v.term, *pairs), v.cls,
-                    {k: self.subst(x, pairs) for k, x in v.fields.items()})
+            o = Obj(z3.substitute(v.term, *pairs), v.cls)
+            memo[id(v)] = o
+            o.fields = {k: self.subst(x, pairs, memo) for k, x in v.fields.items()}
             if v.app is not None:
-                o.app = (v.app[0], [self.subst(a, pairs) for a in v.app[1]], v.app[2])
+                o.app = (v.app[0], [self.subst(a, pairs, memo) for a in v.app[1]], v.app[2])
             return o
         if isinstance(v, tuple):
-            return tuple(self.subst(x, pairs) for x in v)
+            return tuple(self.subst(x, pairs, memo) for x in v)
         if isinstance(v, SeqV):
             if v.items is not None:
-                return SeqV(items=[self.subst(x, pairs) for x in v.items], kind=v.kind, esort=v.esort)
+                return SeqV(items=[self.subst(x, pairs, memo) for x in v.items], kind=v.kind, esort=v.esort)
             s = SeqV(length=z3.substitute(v.length, *pairs), kind=v.kind, esort=v.esort, canon=v.canon,
                      term=None if v.term is None else z3.substitute(v.term, *pairs))
             if v.elem is not None:
@@ -586,34 +619,44 @@ class Engine:
                 s.inv = self._subst_fn_z(v.inv, pairs, v.esort)
             return s
         if isinstance(v, CaseV):
-            return CaseV([(z3.substitute(g, *pairs), self.subst(x, pairs)) for g, x in v.cases])
+            return CaseV([(z3.substitute(g, *pairs), self.subst(x, pairs, memo)) for g, x in v.cases])
         if isinstance(v, DictV):
-            return DictV({k: self.subst(x, pairs) for k, x in v.d.items()})
+            return DictV({k: self.subst(x, pairs, memo) for k, x in v.d.items()})
         if isinstance(v, ArrV):
             a = ArrV(z3.substitute(v.term, *pairs), [z3.substitute(s, *pairs) if z3.is_expr(s) else s for s in v.shape], v.fill)
             a.clauses = [(b, z3.substitute(g, *pairs) if z3.is_expr(g) else g,
                           tuple(z3.substitute(ix, *pairs) if z3.is_expr(ix) else ix for ix in idx),
-                          self.subst(val, pairs)) for (b, g, idx, val) in v.clauses]
+                          self.subst(val, pairs, memo)) for (b, g, idx, val) in v.clauses]
             return a
         if isinstance(v, RangeV):
-            return RangeV(self.subst(v.start, pairs), self.subst(v.stop, pairs))
+            return RangeV(self.subst(v.start, pairs, memo), self.subst(v.stop, pairs, memo))
         if isinstance(v, FuncV) and v.kind == 'method':
-            return FuncV('method', v.name, node=v.node, module=v.module, self_val=self.subst(v.self_val, pairs))
+            return FuncV('method', v.name, node=v.node, module=v.module, self_val=self.subst(v.self_val, pairs, memo))
         return v
 
     def _subst_fn_val(self, fn, pairs, sort):
         def g(i):
             t = z3.Int(fresh_name('t'))
+            n0 = len(self.facts)
             r = self.subst(fn(t), pairs)
+            self._reinstantiate(n0, pairs, (t, i))
             return self.subst(r, [(t, i)])
         return g
 
     def _subst_fn_z(self, fn, pairs, esort):
         def g(x):
             t = z3.Int(fresh_name('t')) if esort == 'int' else z3.Const(fresh_name('t'), V)
+            n0 = len(self.facts)
             r = z3.substitute(fn(t), *pairs)
+            self._reinstantiate(n0, pairs, (t, x))
             return z3.substitute(r, (t, x))
         return g
+
+    def _reinstantiate(self, n0, pairs, last):
+        """facts created while a closure was evaluated at a placeholder are re-instantiated at the real argument"""
+        for f in self.facts[n0:]:
+            f2 = z3.substitute(f, *pairs) if pairs else f
+            self.fact(z3.substitute(f2, last))
 
     def subst_facts(self, pairs):
         """re-instantiate the facts that mention substituted bound variables"""
